@@ -69,6 +69,11 @@ pub struct Aligned {
     pub flip_case: bool,
     /// HAZARD: the record carries its CIGAR but no bases (`SEQ = *`)
     pub bases_missing: bool,
+    /// the alignment is a reference skip of the script's span and nothing else (CIGAR `kN`, no read
+    /// bases at all: `SEQ = *` with read length 0) — a record a CRAM reader can decode without the
+    /// reference sequence; set by C19 for whole documents, never by the generator itself
+    #[serde(default)]
+    pub skip_only: bool,
 }
 
 #[derive(Clone, Debug, Serialize, Deserialize, PartialEq)]
@@ -318,6 +323,15 @@ fn place(a: &Aligned, reference: &[u8]) -> Placed {
     let mut bases: Vec<u8> = Vec::new();
     let mut feats = 0usize;
     let (m_eq, m_sub) = if a.eqx { (b'=', b'X') } else { (b'M', b'M') };
+    if a.skip_only {
+        let want: usize = a.edits.iter().map(|e| match e {
+            Edit::Eq(n) | Edit::Del(n) | Edit::Skip(n) => *n as usize,
+            Edit::Sub(_) => 1,
+            _ => 0,
+        }).sum();
+        let span = want.clamp(1, rlen - rpos);
+        return Placed { cigar: vec![(b'N', span)], bases: Vec::new(), start, ref_span: span, edit_features: 1 };
+    }
 
     // pending non-aligned edits are only committed when an aligned base follows, so the core
     // starts and ends with an aligned base
@@ -1498,6 +1512,7 @@ fn aligned_strategy(p: &Params) -> BoxedStrategy<Aligned> {
         weighted_bool(w_mb),
     )
         .prop_map(|(ref_idx, start, lead_hard, lead_soft, edits, trail_soft, trail_hard, eqx, flip_case, bases_missing)| Aligned {
+            skip_only: false,
             ref_idx,
             start,
             lead_hard,
